@@ -13,7 +13,7 @@ LEVEL = 'model_checking'
 RULE = ('(i) BFS over real HyperLogLogWCache instances scaled down by assignment of their instance attributes (p=3,m=8,warm-up=4 and '
         'p=4,m=16,warm-up=8): event = add(v), v from warm-up+3 distinct strings, all insertion sequences to depth warm-up+4; state = '
         '(warm-up set, flag, registers) + reference set; (ii) the unmodified class on declared long insertion streams crossing 2^18 '
-        '(thorough: up to 2^21 distinct) with len() checked after every insertion around the switch and at checkpoints. '
+        '(thorough: up to 2^21 distinct) with len() checked after every insertion around the switch and at checkpoints; (iii) the sketches as the pipeline feeds them (compute_cardinalities over 5 batches in 3 orders, histogram bounds 1..30000). '
         'non-trivial = distinct states with at least two distinct values inserted')
 ASSUMPTIONS = ['the estimate clause (2%) is judged only on the real-size streams, not at m=8/16',
                'scaled instances differ from production ones only in the four attributes p, m, warmup_size, width']
@@ -171,13 +171,45 @@ def _real_stream(job):
     return st
 
 
+def _pipeline(_):
+    """the sketch as the pipeline feeds it: compute_cardinalities over successive batches, for histogram bounds below and above the number of distinct values"""
+    import pandas as pd
+    from mc import harness
+    from outrank import core_ranking as cr
+    st = Stats()
+    batches = [['a', 'b', 'a', ''], ['c', 'a', 'd', 'e'], ['f', 'f', 'g', ''], ['a', 'h', 'i', 'j'], ['k', 'b', 'l', 'm']]
+    for bound in (1, 2, 3, 5, 30000):
+        for order in (list(range(5)), [4, 3, 2, 1, 0], [2, 0, 4, 1, 3]):
+            harness.reset_state()
+            seen = set()
+            for step, bi in enumerate(order):
+                df = pd.DataFrame({'c': batches[bi], 'd': [v.upper() for v in batches[bi]]})
+                ok, r = safe(cr.compute_cardinalities, df, harness.NullBar(), bound)
+                st.count('evaluations')
+                st.count('transitions')
+                st.count('traces_validated')
+                st.count('pipeline_batches')
+                case = {'kind': 'pipeline', 'bound': bound, 'order': order}
+                if not ok:
+                    st.violation(case, f'compute_cardinalities raised {r}', {'family': 'pipeline', 'kind': 'exception'})
+                    break
+                seen |= {v for v in batches[bi] if v}
+                got = {k: len(v) for k, v in cr.GLOBAL_CARDINALITY_STORAGE.items()}
+                if got != {'c': len(seen), 'd': len(seen)}:
+                    st.violation(case, f'after batch {step + 1} (histogram bound {bound}): sketch sizes {got}, exact distinct non-empty values {len(seen)}', {'family': 'pipeline', 'kind': 'not_exact'})
+                    break
+    harness.reset_state()
+    st.count('states', 15)
+    return st
+
+
 def run(ctx):
     jobs = [(3, 4, 8), (4, 8, 10 if not ctx.thorough else 11), (2, 2, 6), (3, 4, 9)] if not ctx.thorough else [(3, 4, 9), (4, 8, 12), (2, 2, 7), (3, 2, 8)]
     n_real = WARM + 2 ** 14 if not ctx.thorough else 2 ** 21
     rjobs = [('dec_asc', 0, n_real, True), ('hexhash', 4, n_real, False)]
     if ctx.thorough:
         rjobs += [('dec_desc', 0, n_real, False), ('lcg', 0, n_real, False), ('dec_asc', 4, n_real, False), ('lcg', 4, n_real, True)]
-    res = pmap(_dispatch, [('s', j) for j in jobs] + [('r', j) for j in rjobs])
+    res = pmap(_dispatch, [('s', j) for j in jobs] + [('r', j) for j in rjobs] + [('p', None)])
     for st in res:
         ctx.stats.merge(st)
     ctx.exhaustive = True
@@ -188,10 +220,14 @@ def run(ctx):
 
 def _dispatch(item):
     kind, job = item
+    if kind == 'p':
+        return _pipeline(job)
     return _scaled(job) if kind == 's' else _real_stream(job)
 
 
 def eval_case(case):
+    if case.get('kind') == 'pipeline':
+        return [v['what'] for v in _pipeline(None).violations if v['case']['bound'] == case['bound']]
     if 'stream' in case:
         st = _real_stream((case['stream'], case['dup_every'], min(case['n_distinct'], case.get('at_distinct', WARM) + 64), case['hold']))
         return [v['what'] for v in st.violations]
